@@ -1484,9 +1484,17 @@ func (g *gen) breakSomething() {
 				S("leaf", g.name("l"), S("type", g.pfx(c, b)+":"+tn)),
 				S("container", g.name("c"), S("uses", g.pfx(c, a)+":"+gn)),
 				S("container", g.name("c"), S("uses", g.pfx(c, b)+":"+gn))))
-			if t.Coin() {
+			switch t.Draw(3) {
+			case 1:
 				// and a local definition of the same name, used unprefixed
 				c.Root.Add(S("typedef", tn, S("type", "boolean")), S("leaf", g.name("l"), S("type", tn)))
+			case 2:
+				// the prefix forgotten: no local definition, two imported modules define the name
+				c.Root.Add(S("leaf", g.name("l"), S("type", tn)))
+				if t.Coin() {
+					c.Root.Add(S("container", g.name("c"), S("uses", gn)))
+				}
+				g.set.Ops = append(g.set.Ops, "unprefixed-reference-to-imported-name")
 			}
 			g.set.Ops = append(g.set.Ops, "same-definition-name-in-two-imports")
 			return
